@@ -9,7 +9,7 @@ import (
 	"verifharness/internal/vh"
 )
 
-const rule = "case = one operation sequence on a fresh trie (Update/Delete/Get/Hash/iterate/Prove+Verify/tamper, interleaved with a Commit/reopen/Reference/Dereference/Cap/Database.Commit schedule), or one DeriveSha list, or one hostile proof store; a sequence is non-trivial when the trie held >= 2 keys at some point (so a branch node existed) and >= 1 delete removed an existing key; DeriveSha lists when they have >= 2 items; hostile stores when decoding got past the outer list header; distinct by canonical text"
+const rule = "case = one operation sequence on a fresh trie (Update/Delete/Get/Hash/iterate/Prove+Verify/tamper, interleaved with a Commit/reopen/Reference/Dereference/Cap/Database.Commit schedule), or one DeriveSha list, or one hostile proof store, or one crash case (a > 100 KB Database.Commit on a disk that dies after k batch writes, every k); a sequence is non-trivial when the trie held >= 2 keys at some point (so a branch node existed) and >= 1 delete removed an existing key; DeriveSha lists when they have >= 2 items; hostile stores when decoding got past the outer list header; distinct by canonical text"
 
 func run(c *vh.Ctx) error {
 	quiet.Silence()
@@ -60,7 +60,7 @@ func run(c *vh.Ctx) error {
 	}
 
 	// ---- operation sequences ----------------------------------------------------------------------
-	nSeq := c.N(2500, 18000)
+	nSeq := c.N(2200, 18000)
 	maxOps := c.N(80, 140)
 	tamperBudget := c.N(300, 2000)
 	if c.Search {
@@ -106,6 +106,22 @@ func run(c *vh.Ctx) error {
 			}
 			rp := vh.WriteReplay(c.ReplayDir, "C13", fmt.Sprintf("seq-%d-%d", c.Seed, si), c.Seed, []string{kind + ": " + what}, shr)
 			res.Fail(kind, "", what, rp)
+		}
+	}
+
+	// ---- crash stream: Database.Commit of > 100 KB on a disk that dies between two batch writes ---------
+	nCrash := c.N(6, 40)
+	for i := 0; i < nCrash; i++ {
+		l := fmt.Sprintf("CRASH %d %d %d", []int{1200, 2500, 4000}[c.R.Intn(3)], []int{60, 100, 120}[c.R.Intn(3)], c.R.U64()%1000000)
+		fl, _, e := rn.runSeq([]string{l})
+		if e != nil {
+			return e
+		}
+		res.Count(l, true)
+		if fl != nil && reported < 8 {
+			reported++
+			rp := vh.WriteReplay(c.ReplayDir, "C13", fmt.Sprintf("crash-%d-%d", c.Seed, i), c.Seed, []string{fl.kind + ": " + fl.what}, []string{l})
+			res.Fail(fl.kind, "", fl.what, rp)
 		}
 	}
 
